@@ -418,6 +418,8 @@ func checkC42(c *Ctx) string {
 		c42Transaction(c, r1, r2, trFn, newSuTran, thCall, ended, complete, rollback, blockReturn)
 	}
 	c42Typestate(c)
+	checkCompleteOutcome(c, "C42.6 K4c the completed status is stored only after a successful commit")
+	checkAbortAlwaysQueued(c, "C42.7 K5 an abort request always reaches the checker")
 	return "Shape of builtin.Transaction's block form and of core.SuTran. Decided: the block is called (Thread.Call with the SuTran made by NewSuTran) only after the defer of exactly one " +
 		"recovering closure; that closure is executed symbolically for the 2x3 scenarios {transaction already ended, not ended} x {nothing thrown, BlockReturn thrown, other value thrown} with " +
 		"conditions canonicalised to those facts: not ended & exception => Rollback, no Complete, then panic(e); not ended & (nothing | BlockReturn) => Complete, no Rollback; recovered non-nil => " +
